@@ -944,6 +944,42 @@ def judge_offline_and_online_node(seed):
     return None
 
 
+def judge_esn_memoryful_reservoirs(seed):
+    """the ESN convenience node with a reservoir that keeps memory OUTSIDE state() (NVAR window; Reservoir(equation='external') internal_state), fitted on
+    several sequences of different lengths with the default workers / backend: the readout gets the parameters of the explicit procedure (every sequence through
+    a reservoir in its initial condition, the readout accumulating the outputs after the warm-up)"""
+    import reservoirpy as rpy
+    from reservoirpy.nodes import ESN, NVAR, Reservoir, Ridge
+    rpy.verbosity(0)
+    rs = np.random.RandomState(seed + 40)
+    W, Win = rs.randint(-4, 5, (3, 3)) / 8.0, rs.randint(-4, 5, (3, 2)) / 4.0
+
+    def data(lengths):
+        return [rs.randint(-8, 9, (n, 2)) / 8.0 for n in lengths], [rs.randint(-8, 9, (n, 1)) / 4.0 for n in lengths]
+    for what, mk_res, lengths, warmup in (
+            ("nvar", lambda k: NVAR(delay=3, order=1, strides=2, name="mr%d_n%s" % (seed, k)), (7, 9, 6), 1),
+            ("external", lambda k: Reservoir(3, W=W, Win=Win, bias=np.zeros((3, 1)), lr=0.5, equation="external", activation=lambda v: np.clip(v, -1, 1),
+                                             name="mr%d_e%s" % (seed, k)), (6, 8), 1)):
+        sc = {"kind": "esn-memoryful-reservoir", "what": what, "seed": seed}
+        try:
+            X, Y = data(lengths)
+            esn = ESN(reservoir=mk_res("esn"), readout=Ridge(ridge=0.25, name="mr%d_o%s" % (seed, what)), name="mr%d_%s" % (seed, what))
+            esn.fit(X, Y, warmup=warmup)
+            ref = Ridge(ridge=0.25, name="mr%d_p%s" % (seed, what))
+            for k, (x, y) in enumerate(zip(X, Y)):
+                ref.partial_fit(mk_res("x%d" % k).run(x), y, warmup=warmup)
+            ref.fit()
+        except Exception as ex:  # noqa: BLE001
+            return {"key": "esn-fit:memoryful-reservoir:exception", "what": "ESN with a %s reservoir: fit raises %s: %s" % (what, type(ex).__name__, ex), "scenario": sc,
+                    "expected": None, "observed": None}
+        if not (np.allclose(esn.readout.Wout, ref.Wout, atol=1e-9) and np.allclose(esn.readout.bias, ref.bias, atol=1e-9)):
+            return {"key": "esn-fit:sequences-not-independent:%s" % what, "what": "ESN.fit with a %s reservoir on %d sequences differs from the explicit procedure that runs every "
+                    "sequence through a reservoir in its initial condition (max |dWout| %.3g): memory kept outside state() leaks from one sequence into the next"
+                    % (what, len(lengths), float(np.max(np.abs(esn.readout.Wout - ref.Wout)))), "scenario": sc,
+                    "expected": np.asarray(ref.Wout).tolist(), "observed": np.asarray(esn.readout.Wout).tolist()}
+    return None
+
+
 def oracle(ctx, scale=1):
     rng = ctx.rng("oracle")
     cases = gen_cases(rng, ctx.n(60, 600) * scale)
@@ -960,6 +996,9 @@ def oracle(ctx, scale=1):
     v = judge_offline_and_online_node(ctx.seed)
     if v:
         out.append(v)
+    v = judge_esn_memoryful_reservoirs(ctx.seed)
+    if v:
+        out.append(v)
     return {"evaluations": len(cases) + 2, "violations": out, "distribution": dist,
             "rule": "explicit node-by-node procedure with real nodes on fresh copies (Node.run / Ridge.fit(states, Y, warmup) / predictions fed "
                     "downstream) vs Model.fit / ESN.fit: Wout and bias of every readout to 1e-9; explicit per-timestep loop (Node.call upstream, "
@@ -972,6 +1011,9 @@ def replay(payload):
     if ff:                                 # a disagreeing fit-with-feedback scenario stored by the correspondence
         return fitfb.replay(ff[0])
     sc = payload["scenario"]
+    if sc.get("kind") == "esn-memoryful-reservoir":
+        v = judge_esn_memoryful_reservoirs(sc.get("seed", 0))
+        return {"violates": bool(v), "detail": v}
     if sc.get("kind") == "offline-and-online-node":
         v = judge_offline_and_online_node(sc.get("seed", 0))
         return {"violates": bool(v), "detail": v}
